@@ -402,6 +402,9 @@ Fixpoint gets_all (st : store) (l : list nat) : res (list (nat * stream)) :=
 Definition to_inl (r : nat) (js : nat * stream) : inl :=
   if Nat.eqb r (fst js) then ISelf
   else match snd js with SS c => IC c | MS m => IM m end.
+(* with energy_balance the receiver's own indexer is copied first: no inlet aliases the receiver *)
+Definition to_inl_copy (js : nat * stream) : inl :=
+  match snd js with SS c => IC c | MS m => IM m end.
 
 Definition mix (st : store) (r : nat) (ins : list nat) (eb : bool) (hf : nat) : res stream :=
   do rs <- gets st r;
@@ -412,7 +415,7 @@ Definition mix (st : store) (r : nat) (ins : list nat) (eb : bool) (hf : nat) : 
   | [js] => if eb then (if Nat.eqb r (fst js) then Ok rs else copy_like rs (snd js))
             else imol_mix_from rs [to_inl r js]
   | _ =>
-    let inls := map (to_inl r) ne in
+    let inls := if eb then map to_inl_copy ne else map (to_inl r) ne in
     do r1 <- imol_mix_from rs inls;
     if eb then
       match set_H hf r1 with
@@ -434,32 +437,38 @@ Definition mix (st : store) (r : nat) (ins : list nat) (eb : bool) (hf : nat) : 
 Inductive splitv := SpS (q : Q) | SpV (v : vec).
 Definition split_vec (n : nat) (s : splitv) : vec :=
   match s with SpS q => repeat q n | SpV v => v end.
-(* an outlet receives [values] (in the feed's package order) *)
-Definition put_values (fpkg : pkg) (values : vec) (phase_to : option phase) (out : stream) : res stream :=
+(* an outlet (after the phase handling) receives [values], given in the feed's package order:
+   s.mol[:] = values, or s.empty(); s.imol[CASs of the non-zero values] = values *)
+Definition put_values (fpkg : pkg) (values : vec) (out : stream) : res stream :=
   match out with
-  | MS _ => Err EValue                                     (* s.mol of a MultiStream is read-only *)
+  | MS m =>
+    if same_pkg (mpkg m) fpkg then Err EValue              (* s.mol of a MultiStream is read-only *)
+    else if row_any values
+         then do _ <- overlap (mpkg m) fpkg (nz_keys values);
+              Err EIndex                                    (* imol[CASs] = ... needs a phase *)
+         else Ok (empty_stream out)
   | SS c =>
-    let ph := match phase_to with Some p => p | None => cphase c end in
-    if same_pkg (cpkg c) fpkg then Ok (SS (mkc (cpkg c) ph values))
-    else do r <- remap (cpkg c) fpkg values; Ok (SS (mkc (cpkg c) ph r))
+    if same_pkg (cpkg c) fpkg then Ok (SS (mkc (cpkg c) (cphase c) values))
+    else do r <- remap (cpkg c) fpkg values; Ok (SS (mkc (cpkg c) (cphase c) r))
   end.
-(* Stream.split_to for a single-phase feed; with energy_balance the outlets first take the
-   feed's phase (which turns a MultiStream outlet into a Stream) *)
+(* s.phase = p on either class *)
 Definition to_single (s : stream) (p : phase) : stream :=
   match s with
   | SS c => SS (set_cphase c p)
   | MS m => SS (m_to_chemical m p)
   end.
-Definition split_single (f : cindexer) (s1 s2 : stream) (sp : splitv) (eb : bool)
-  : res (stream * stream) :=
-  let values := vmul (crow f) (split_vec (length (crow f)) sp) in
-  let dummy := vsub (crow f) values in
-  let s1 := if eb then to_single s1 (cphase f) else s1 in
-  let s2 := if eb then to_single s2 (cphase f) else s2 in
-  do a <- put_values (cpkg f) values None s1;
-  do b <- put_values (cpkg f) dummy None s2;
+(* Stream.split_to on a row [frow] of the feed; with energy_balance the outlets first take
+   the feed's phase (which turns a MultiStream outlet into a Stream) *)
+Definition split_single (fpkg : pkg) (fphase : phase) (frow : vec) (s1 s2 : stream) (sp : splitv)
+  (eb : bool) : res (stream * stream) :=
+  let values := vmul frow (split_vec (length frow) sp) in
+  let dummy := vsub frow values in
+  let s1 := if eb then to_single s1 fphase else s1 in
+  let s2 := if eb then to_single s2 fphase else s2 in
+  do a <- put_values fpkg values s1;
+  do b <- put_values fpkg dummy s2;
   Ok (a, b).
-(* MultiStream.split_to *)
+(* MultiStream.split_to, per phase *)
 Fixpoint split_rows (rows : list vec) (sp : splitv) : list vec * list vec :=
   match rows with
   | [] => ([], [])
@@ -467,20 +476,210 @@ Fixpoint split_rows (rows : list vec) (sp : splitv) : list vec * list vec :=
               let rest := split_rows t sp in
               (v :: fst rest, vsub r v :: snd rest)
   end.
+Fixpoint remap_rows (left right : pkg) (rows : list vec) : res (list vec) :=
+  match rows with
+  | [] => Ok []
+  | r :: t => do x <- remap left right r; do y <- remap_rows left right t; Ok (x :: y)
+  end.
 Definition out_rows (fpkg : pkg) (phases : list phase) (rows : list vec) (out : stream) : res stream :=
   do o1 <- set_phases out phases;
   match o1 with
   | SS c => match rows with
-            | [r] => put_values fpkg r None o1
+            | [r] => put_values fpkg r o1
             | _ => Err EOther
             end
   | MS m =>
     if same_pkg (mpkg m) fpkg then Ok (MS (mkm (mpkg m) (mphases m) rows))
+    else do rows' <- remap_rows (mpkg m) fpkg rows; Ok (MS (mkm (mpkg m) (mphases m) rows'))
+  end.
+Definition is_multi (s : stream) : bool := match s with MS _ => true | SS _ => false end.
+Definition split_to (f s1 s2 : stream) (sp : splitv) (eb : bool) : res (stream * stream) :=
+  match f with
+  | SS c => split_single (cpkg c) (cphase c) (crow c) s1 s2 sp eb
+  | MS m =>
+    if eb || is_multi s1 || is_multi s2 then
+      let vr := split_rows (mrows m) sp in
+      do a <- out_rows (mpkg m) (mphases m) (fst vr) s1;
+      do b <- out_rows (mpkg m) (mphases m) (snd vr) s2;
+      Ok (a, b)
+    else split_single (mpkg m) Pl (vsum (psize (mpkg m)) (mrows m)) s1 s2 sp false
+  end.
+
+(* ---------- separate_out ---------- *)
+Definition sub_row (self : pkg) (row : vec) (opkg : pkg) (orow : vec) : res vec :=
+  if same_pkg self opkg then Ok (vsub row orow)
+  else do pr <- overlap self opkg (nz_keys orow); Ok (sub_pairs row pr orow).
+Fixpoint sub_phases (self : pkg) (phases : list phase) (rows : list vec) (opkg : pkg)
+  (ops : list phase) (ors : list vec) (skip_empty : bool) : res (list vec) :=
+  match ops, ors with
+  | p :: pt, r :: rt =>
+    if skip_empty && negb (row_any r) then sub_phases self phases rows opkg pt rt skip_empty
+    else do i <- phase_index p phases;
+         do r' <- sub_row self (nth i rows []) opkg r;
+         sub_phases self phases (upd rows i r') opkg pt rt skip_empty
+  | _, _ => Ok rows
+  end.
+Definition imol_separate_out (self other : stream) : res stream :=
+  match self, other with
+  | SS c, SS o => do r <- sub_row (cpkg c) (crow c) (cpkg o) (crow o); Ok (SS (mkc (cpkg c) (cphase c) r))
+  | SS c, MS o =>
+    do r <- sub_row (cpkg c) (crow c) (mpkg o) (vsum (psize (mpkg o)) (mrows o));
+    Ok (SS (mkc (cpkg c) (cphase c) r))
+  | MS m, SS o =>
+    do rows <- sub_phases (mpkg m) (mphases m) (mrows m) (cpkg o) [cphase o] [crow o] false;
+    Ok (MS (mkm (mpkg m) (mphases m) rows))
+  | MS m, MS o =>
+    do _ <- (if same_pkg (mpkg m) (mpkg o) then Ok []
+             else if phases_eqb (mphases m) (mphases o)
+                  then overlap (mpkg m) (mpkg o) (nz_keys_rows (psize (mpkg o)) (mrows o))
+                  else Ok []);
+    do rows <- sub_phases (mpkg m) (mphases m) (mrows m) (mpkg o) (mphases o) (mrows o)
+                 (negb (phases_eqb (mphases m) (mphases o)));
+    Ok (MS (mkm (mpkg m) (mphases m) rows))
+  end.
+
+(* ---------- Stream.copy_flow (receiver single-phase) ---------- *)
+Inductive ids := IdAll | IdOne (c : nat) | IdList (l : list nat).
+Definition cas_mem (c : nat) (l : list nat) : bool := existsb (Nat.eqb c) l.
+(* positions of [other] selected by IDs / exclude; [inl true] marks "a single int index" *)
+Fixpoint indices_of (l : list nat) (p : pkg) : res (list nat) :=
+  match l with
+  | [] => Ok []
+  | c :: t => match index_of c (cas p) with
+              | Some i => do r <- indices_of t p; Ok (i :: r)
+              | None => Err EOther
+              end
+  end.
+Definition complement (n : nat) (bad : list nat) : list nat :=
+  filter (fun i => negb (existsb (Nat.eqb i) bad)) (seq 0 n).
+Definition select (opkg : pkg) (i : ids) (exclude : bool) : res (bool * list nat) :=
+  match i with
+  | IdAll => Ok (false, seq 0 (psize opkg))
+  | IdOne c =>
+    if exclude then
+      match index_of c (cas opkg) with
+      | Some b => Ok (false, complement (psize opkg) [b])
+      | None => Err EType                                   (* slice() *)
+      end
+    else match index_of c (cas opkg) with
+         | Some b => Ok (true, [b])
+         | None => Err EOther
+         end
+  | IdList l =>
+    if exclude then
+      let l' := filter (fun c => cas_mem c (cas opkg)) l in
+      do bad <- indices_of l' opkg;
+      match bad with
+      | [] => Err EType                                     (* slice() *)
+      | _ => Ok (false, complement (psize opkg) bad)
+      end
+    else do idx <- indices_of l opkg; Ok (false, idx)
+  end.
+Definition set_at (dst : vec) (idx : list nat) (src : vec) : vec :=
+  fold_left (fun d i => upd d i (nthq src i)) idx dst.
+Definition zero_at (dst : vec) (idx : list nat) : vec :=
+  fold_left (fun d i => upd d i 0) idx dst.
+Definition remove_from (other : stream) (idx : list nat) : stream :=
+  match other with
+  | SS o => SS (mkc (cpkg o) (cphase o) (zero_at (crow o) idx))
+  | MS o => MS (mkm (mpkg o) (mphases o) (map (fun r => zero_at r idx) (mrows o)))
+  end.
+Definition other_mol (other : stream) : vec :=
+  match other with SS o => crow o | MS o => vsum (psize (mpkg o)) (mrows o) end.
+Definition copy_flow (self : cindexer) (other : stream) (i : ids) (remove exclude : bool)
+  : res (stream * stream) :=
+  let omol := other_mol other in
+  let opkg := spkg other in
+  match i with
+  | IdAll =>
+    if exclude then Ok (SS self, other)
     else
-      (fix go (rs : list vec) : res (list vec) :=
-         match rs with
-         | [] => Ok []
-         | r :: t => do x <- remap (mpkg m) fpkg r; do y <- go t; Ok (x :: y)
-         end) rows >>= fun rows' => Ok (MS (mkm (mpkg m) (mphases m) rows'))
-  end
-where "a >>= f" := (bind a f).
+      do row <- (if same_pkg (cpkg self) opkg then Ok omol else remap (cpkg self) opkg omol);
+      Ok (SS (mkc (cpkg self) (cphase self) row),
+          if remove then empty_stream other else other)
+  | _ =>
+    do sel <- select opkg i exclude;
+    let idx := snd sel in
+    do row <- (if same_pkg (cpkg self) opkg then Ok (set_at (crow self) idx omol)
+               else if fst sel then Err EType               (* iterating over an int *)
+               else
+                 let idx' := filter (fun k => negb (qzerob (nthq omol k))
+                                              || cas_mem (nth k (cas opkg) O) (cas (cpkg self))) idx in
+                 do pr <- overlap (cpkg self) opkg idx';
+                 Ok (set_pairs (crow self) pr omol));
+    Ok (SS (mkc (cpkg self) (cphase self) row),
+        if remove then remove_from other idx else other)
+  end.
+
+(* ---------- scale / __mul__ ---------- *)
+Definition scale (k : Q) (s : stream) : stream :=
+  match s with
+  | SS c => SS (mkc (cpkg c) (cphase c) (vscale k (crow c)))
+  | MS m => MS (mkm (mpkg m) (mphases m) (map (vscale k) (mrows m)))
+  end.
+
+(* ---------- histories over a store of streams ---------- *)
+Inductive op :=
+| OMix (r : nat) (ins : list nat) (eb : bool) (hf : nat)
+| OSplit (f s1 s2 : nat) (sp : splitv) (eb : bool)
+| OSep (r o : nat)
+| OCopyFlow (d s : nat) (i : ids) (remove exclude : bool)
+| OScale (i : nat) (k : Q)
+| OMul (i : nat) (k : Q).
+
+Definition step (st : store) (o : op) : res store :=
+  match o with
+  | OMix r ins eb hf => do s <- mix st r ins eb hf; Ok (upd st r s)
+  | OSplit f s1 s2 sp eb =>
+    do fs <- gets st f; do a <- gets st s1; do b <- gets st s2;
+    do ab <- split_to fs a b sp eb;
+    Ok (upd (upd st s1 (fst ab)) s2 (snd ab))
+  | OSep r o =>
+    do rs <- gets st r; do os <- gets st o;
+    if Nat.eqb r o then Ok (upd st r (empty_stream rs))
+    else do s <- imol_separate_out rs os; Ok (upd st r s)
+  | OCopyFlow d s i remove exclude =>
+    do ds <- gets st d; do ss <- gets st s;
+    if Nat.eqb d s then Err EOther                          (* not modelled: copying onto itself *)
+    else match ds with
+         | MS _ => Err EOther                               (* MultiStream.copy_flow is not modelled *)
+         | SS c => do r <- copy_flow c ss i remove exclude;
+                   Ok (upd (upd st d (fst r)) s (snd r))
+         end
+  | OScale i k => do s <- gets st i; Ok (upd st i (scale k s))
+  | OMul i k => do s <- gets st i; Ok (st ++ [scale k s])
+  end.
+
+Fixpoint run (st : store) (ops : list op) : res store :=
+  match ops with
+  | [] => Ok st
+  | o :: t => do st' <- step st o; run st' t
+  end.
+
+(* ---------- comparison with the implementation's observations ---------- *)
+Definition pkg_eqb (a b : pkg) : bool := Nat.eqb (pid a) (pid b) && list_eqb Nat.eqb (cas a) (cas b).
+Definition stream_eqb (a b : stream) : bool :=
+  match a, b with
+  | SS x, SS y => pkg_eqb (cpkg x) (cpkg y) && phase_eqb (cphase x) (cphase y) && vapproxb (crow x) (crow y)
+  | MS x, MS y => pkg_eqb (mpkg x) (mpkg y) && phases_eqb (mphases x) (mphases y)
+                  && list_eqb vapproxb (mrows x) (mrows y)
+  | _, _ => false
+  end.
+Definition store_eqb (a b : store) : bool := list_eqb stream_eqb a b.
+(* run a history; [n_ok] operations succeed; then either the history is over and the store is
+   [expect], or operation number [n_ok] raises [e] *)
+Fixpoint run_upto (st : store) (ops : list op) (n : nat) : res store * list op :=
+  match n, ops with
+  | S k, o :: t => match step st o with Ok st' => run_upto st' t k | Err e => (Err e, ops) end
+  | _, _ => (Ok st, ops)
+  end.
+Definition run_eqb (st : store) (ops : list op) (n_ok : nat) (e : option err) (expect : store) : bool :=
+  match run_upto st ops n_ok with
+  | (Ok st', rest) =>
+    match e, rest with
+    | None, [] => store_eqb st' expect
+    | Some e, o :: _ => res_eqb (fun _ _ => false) (step st' o) (Err e) && store_eqb st' expect
+    | _, _ => false
+    end
+  | (Err _, _) => false
+  end.
